@@ -685,12 +685,13 @@ func (v Value) convert(t Type) (res Value) {
 		return newSlice(TypeUint8, s)
 	default:
 		switch {
+		case v.t.base() == t.base():
+			// a conversion between a defined slice (map, bool, ...) type and its underlying
+			// type (Vec(s), []float64(v), Flag(ok)) yields the operand itself: same elements,
+			// same array
+			return v
 		case t.base() < nillableMin:
 			return Value{}
-		case v.t.base() == t.base():
-			// a conversion between a defined slice (map, ...) type and its underlying type
-			// (Vec(s), []float64(v)) yields the operand itself: same elements, same array
-			return v
 		case v.t == TypeNil:
 			return Value{t: t} // []T(nil), Vec(nil): the nil slice of that element type
 		case t.base() == TypeSlice:
